@@ -155,4 +155,14 @@ def ivfpqTrain {S : Type} (o : Ops S) (kind : Kind) (nlist M ksub dsub : Nat) (v
     | none => none
     | some residuals => (pqCodebooks o M ksub dsub residuals).map fun cb => (cs, cb)
 
+/-- `CalculatePQParams` (pq_index.go): 8 when it divides `dim`; else the first divisor in
+    9..32; else — the loop variable having run on to 33 — 33 when THAT divides `dim`, and the
+    fallback 4 otherwise (which need not divide `dim`: the "recommended" parameters of such
+    a dimension are rejected by `NewPQIndex`).  Second component: Nbits = 8. -/
+def calcPQParams (dim : Int) : Nat × Nat :=
+  if dim % 8 = 0 then (8, 8) else
+  match ((List.range 25).map fun (i : Nat) => i + 8).find? (fun (m : Nat) => decide (dim % (Int.ofNat m) = 0)) with
+  | some m => (m, 8)
+  | none => if dim % 33 = 0 then (33, 8) else (4, 8)
+
 end Comet.KMeans
